@@ -1063,7 +1063,9 @@ pub fn keyword_prefixes(spec: &mut Spec, tape: &[u32], extra: &[char]) {
 /// A bracket set of `n` individually listed characters (no ranges), e.g. operator characters.
 pub fn many_char_set(tape: &[u32], n: usize) -> Re {
     let mut t = Tape::new(tape);
-    let pool: Vec<char> = "+-*/%<>=!&|^~?:.,;@#$_".chars().chain('A'..='Z').chain("αβγδεζηθ→←↑↓".chars()).collect();
+    // … and characters whose low byte equals that of an ASCII member of the pool (U+0141/'A',
+    // U+FF01/'!', U+3001/U+FF01, U+2B2B/'+', U+013A/':')
+    let pool: Vec<char> = "+-*/%<>=!&|^~?:.,;@#$_".chars().chain('A'..='Z').chain("αβγδεζηθ→←↑↓\u{141}\u{ff01}\u{3001}\u{2b2b}\u{13a}\u{25f}".chars()).collect();
     let mut items: Vec<SetItem> = vec![];
     let mut used: Vec<char> = vec![];
     let mut k = t.next(pool.len() as u32) as usize;
